@@ -181,9 +181,16 @@ class DefaultFormulaParser(FormulaParser):
             return -1
 
         rhs_index = find_rhs_index(tokens) + 1
+        context["__formulaic_variables_used_lhs__"] = [
+            variable
+            for token in tokens[:rhs_index]
+            for variable in token.required_variables
+        ]
         tokens = [
             *(
-                tokens[:rhs_index]
+                insert_tokens_after(
+                    tokens[:rhs_index], r"\|", [], kind=Token.Kind.OPERATOR
+                )
                 if rhs_index > 0 or not self.include_intercept
                 else ([token_one, token_plus] if len(tokens) > 0 else [token_one])
             ),
@@ -195,12 +202,6 @@ class DefaultFormulaParser(FormulaParser):
                 join_operator=join_operator,
                 no_join_for_operators={"+", "-"},
             ),
-        ]
-
-        context["__formulaic_variables_used_lhs__"] = [
-            variable
-            for token in tokens[:rhs_index]
-            for variable in token.required_variables
         ]
 
         # Collapse inserted "+" and "-" operators to prevent unary issues.
